@@ -27,9 +27,10 @@ RULE = (
     "call of its _filter closure a yield point, and a harness-owned scheduler runs the Hypothesis-generated list of "
     "(thread, run length) segments (remainder sequential); oracle: no thread raises and every converter reproduces the "
     "battery outcomes of a sequentially created reference converter (computed in a separate fresh child). (B) histories "
-    "(RuleBasedStateMachine): create_fresh / create_on(Converter(detailed_validation=b) | GenConverter) / add_input / "
-    "use; invariant after every step: every converter gives, for every battery input, the outcome of the first "
-    "converter and the outcome it gave before the latest creation. (C, thorough) real threads with a 1e-6 switch "
+    "(RuleBasedStateMachine, each history executed in a pristine forked process): create(fresh | Converter("
+    "detailed_validation=b) | GenConverter | Converter | a user converter carrying its own int hook) / add_input / use; "
+    "invariant after every step: every non-customised converter gives, for every battery input, the outcome of an "
+    "independent fresh converter (separate process), and every converter the outcome it gave before the latest step. (C, thorough) real threads with a 1e-6 switch "
     "interval, fresh process per trial. non-trivial = schedule with >=1 switch inside the resolution window / history "
     "with >=2 converters of different configuration and a use between creations; distinct = the schedule / history"
 )
@@ -323,96 +324,126 @@ def _work_sched(args) -> dict:
 
 
 # ---- (B) creation histories ---------------------------------------------------------------------------
+CONFIGS = ["fresh", "Converter(dv=True)", "Converter(dv=False)", "GenConverter()", "Converter()", "custom-int-hook"]
+
+
+def child_history(ops: List[Any], fixed: List[Tuple[str, Any]], reference: List[Any]) -> dict:
+    """executes a creation history in a pristine process; invariants are evaluated after every step."""
+    t, h, c = pkg()
+    import cattrs
+    convs: List[Tuple[str, Any]] = []
+    battery: List[Tuple[str, Any]] = list(fixed)
+    memo: Dict[int, List[Any]] = {}
+    findings: List[Any] = []
+    evaluations = 0
+
+    def make(kind: str):
+        if kind == "fresh":
+            return c.get_converter()
+        if kind == "Converter(dv=True)":
+            return c.get_converter(cattrs.Converter(detailed_validation=True))
+        if kind == "Converter(dv=False)":
+            return c.get_converter(cattrs.Converter(detailed_validation=False))
+        if kind == "GenConverter()":
+            return c.get_converter(cattrs.GenConverter())
+        if kind == "Converter()":
+            return c.get_converter(cattrs.Converter())
+        if kind == "custom-int-hook":
+            base = cattrs.Converter()
+            base.register_structure_hook(int, lambda v, _: int(v) + 1000)   # a user's own customisation
+            return c.get_converter(base)
+        raise ValueError(kind)
+
+    for step, op in enumerate(ops):
+        if op[0] == "create":
+            try:
+                convs.append((op[1], make(op[1])))
+            except Exception as e:
+                findings.append([["create-raises", "get_converter", op[1]], f"{type(e).__name__}: {e}", step])
+        elif op[0] == "add_input":
+            battery.append((op[1], op[2]))
+        elif op[0] == "use" and convs:
+            label, conv = convs[op[1] % len(convs)]
+            name, j = battery[op[2] % len(battery)]
+            outcome(conv, t, name, j)
+        # invariant
+        for idx, (label, conv) in enumerate(convs):
+            outs = [outcome(conv, t, name, j) for name, j in battery]
+            evaluations += len(outs)
+            if label != "custom-int-hook":
+                ref = reference[: len(outs)]
+                if outs != ref:
+                    k = next(i for i, (a, b) in enumerate(zip(outs, ref)) if a != b)
+                    findings.append([["converter-differs", battery[k][0], label],
+                                     f"{battery[k][0]} {json.dumps(battery[k][1])[:150]}: converter #{idx} ({label}) gives {outs[k]}, an independent fresh converter {ref[k]}", step])
+            before = memo.get(idx)
+            if before is not None and outs[: len(before)] != before:
+                k = next(i for i, (a, b) in enumerate(zip(outs, before)) if a != b)
+                findings.append([["behaviour-changed", battery[k][0], label],
+                                 f"converter #{idx} ({label}) changed its outcome for {battery[k][0]} at step {step} ({op[:2]})", step])
+            memo[idx] = outs
+    return {"findings": findings[:20], "evaluations": evaluations}
+
+
 def _work_hist(args) -> dict:
     shard, seed, examples, steps = args
     t, h, c = pkg()
-    import cattrs
+    if h._resolved_forward_references:
+        raise HarnessError("history worker is not pristine")
     ctx = Ctx("C19", "quick", seed)
     stats = collections.Counter()
     histories: List[Any] = []
-    from .. import tvgen, valuecheck
-    sub = valuecheck.subject()
-    roots = [r for r in valuecheck.all_roots(sub.model) if r[0] in ("struct", "msg")]
-    base_battery = fixed_battery()
+    from .. import tvgen
+    from ..refmodel import Model, load_doc
+    model = Model(load_doc(repo_path("generator", "lsp.json")))
+    objects = tvgen.Objects(model)
+    roots = [("struct", n) for n in model.structs]
+    fixed = fixed_battery()
 
     class Hist(RuleBasedStateMachine):
         def __init__(self):
             super().__init__()
-            self.convs: List[Tuple[str, Any]] = []
-            self.battery: List[Tuple[str, Any]] = list(base_battery)
-            self.memo: Dict[int, List[Any]] = {}
-            self.history: List[Any] = []
-            self.used_since_create = False
+            self.ops: List[Any] = []
+            self.n_inputs = 0
 
-        def teardown(self):
-            histories.append(self.history)
+        @rule(kind=st.sampled_from(CONFIGS))
+        def create(self, kind):
+            self.ops.append(["create", kind])
 
-        def _add(self, label: str, conv: Any) -> None:
-            self.history.append(["create", label])
-            self.convs.append((label, conv))
-            stats["creations"] += 1
-
-        @rule()
-        def create_fresh(self):
-            try:
-                self._add("fresh", c.get_converter())
-            except Exception as e:
-                ctx.finding(("create-raises", "get_converter", "fresh"), f"{type(e).__name__}: {e}", {"history": self.history})
-
-        @rule(kind=st.sampled_from(["Converter(dv=True)", "Converter(dv=False)", "GenConverter()", "Converter()"]))
-        def create_on(self, kind):
-            base = {"Converter(dv=True)": lambda: cattrs.Converter(detailed_validation=True),
-                    "Converter(dv=False)": lambda: cattrs.Converter(detailed_validation=False),
-                    "GenConverter()": lambda: cattrs.GenConverter(),
-                    "Converter()": lambda: cattrs.Converter()}[kind]()
-            try:
-                self._add(kind, c.get_converter(base))
-            except Exception as e:
-                ctx.finding(("create-raises", "get_converter", kind), f"{type(e).__name__}: {e}", {"history": self.history})
-
-        @precondition(lambda self: len(self.battery) < 40)
+        @precondition(lambda self: self.n_inputs < 12)
         @rule(data=st.data(), ri=st.integers(0, 10**6), broken=st.booleans())
         def add_input(self, data, ri, broken):
             root = roots[ri % len(roots)]
-            tv, _ = data.draw(tvgen.value_strategy(sub.objects, root, tvgen.GenCfg(max_nodes=60)))
+            tv, _ = data.draw(tvgen.value_strategy(objects, root, tvgen.GenCfg(max_nodes=60)))
             j = tvgen.erase(tv)
             if broken and isinstance(j, dict) and j:
                 j = dict(j)
                 j.pop(sorted(j)[0])
-            self.battery.append((sub.root_type(root).__name__, j))
-            self.history.append(["add_input", valuecheck.root_name(root), broken])
+            self.n_inputs += 1
+            self.ops.append(["add_input", root[1], j])
 
-        @precondition(lambda self: len(self.convs) > 0)
+        @precondition(lambda self: any(o[0] == "create" for o in self.ops))
         @rule(ci=st.integers(0, 100), bi=st.integers(0, 1000))
         def use(self, ci, bi):
-            label, conv = self.convs[ci % len(self.convs)]
-            name, j = self.battery[bi % len(self.battery)]
-            outcome(conv, t, name, j)
-            self.history.append(["use", ci % len(self.convs), name])
-            stats["uses"] += 1
+            self.ops.append(["use", ci, bi])
 
-        @invariant()
-        def agree(self):
-            if not self.convs:
+        def teardown(self):
+            if not any(o[0] == "create" for o in self.ops):
                 return
-            first = None
-            for idx, (label, conv) in enumerate(self.convs):
-                outs = [outcome(conv, t, name, j) for name, j in self.battery]
-                stats["battery_evaluations"] += len(outs)
-                if first is None:
-                    first = outs
-                elif outs != first:
-                    k = next(i for i, (a, b) in enumerate(zip(outs, first)) if a != b)
-                    ctx.finding(("converters-disagree", self.battery[k][0], f"{self.convs[0][0]} vs {label}"),
-                                f"{self.battery[k][0]} {json.dumps(self.battery[k][1])[:150]}: first converter {first[k]}, converter #{idx} ({label}) {outs[k]}",
-                                {"history": self.history, "input": self.battery[k]})
-                before = self.memo.get(idx)
-                if before is not None and outs[: len(before)] != before:
-                    k = next(i for i, (a, b) in enumerate(zip(outs, before)) if a != b)
-                    ctx.finding(("behaviour-changed", self.battery[k][0], label),
-                                f"converter #{idx} ({label}) changed its outcome for {self.battery[k][0]} after a later creation/use",
-                                {"history": self.history, "input": self.battery[k]})
-                self.memo[idx] = outs
+            battery = fixed + [(o[1], o[2]) for o in self.ops if o[0] == "add_input"]
+            ref = in_child(child_reference, battery)
+            res = in_child(child_history, self.ops, fixed, ref["outcomes"]) if ref is not None else None
+            stats["histories"] += 1
+            if res is None:
+                stats["inconclusive_timeouts"] += 1
+                return
+            stats["creations"] += sum(1 for o in self.ops if o[0] == "create")
+            stats["uses"] += sum(1 for o in self.ops if o[0] == "use")
+            stats["battery_evaluations"] += res["evaluations"]
+            short = [o[:2] if o[0] != "use" else o for o in self.ops]
+            histories.append(short)
+            for sig, detail, step in res["findings"]:
+                ctx.finding(tuple(sig), detail + f"; history {short[: step + 1]}", {"ops": self.ops[: step + 1]})
 
     run_state_machine_as_test(
         hypothesis.seed(derive_seed(seed, "C19", "hist", shard))(Hist),
@@ -481,7 +512,7 @@ def run(ctx: Ctx) -> None:
     if h._resolved_forward_references:
         raise HarnessError("main process is not pristine")
     if ctx.quick:
-        jobs = [("sched", s, ctx.seed, 5) for s in range(10)] + [("hist", s, ctx.seed, 4, 12) for s in range(6)]
+        jobs = [("sched", s, ctx.seed, 5) for s in range(10)] + [("hist", s, ctx.seed, 8, 12) for s in range(6)]
     else:
         jobs = [("sched", s, ctx.seed, 60) for s in range(10)] + [("hist", s, ctx.seed, 40, 25) for s in range(4)] + [("real", s, ctx.seed, 25) for s in range(2)]
     results = runner.pmap(_dispatch, jobs)
@@ -495,6 +526,8 @@ def run(ctx: Ctx) -> None:
         samples.extend(r["samples"][:1])
         ctx.merge_worker(r)
     evaluations = stats["sched:cases"] + stats["hist:creations"] + stats["hist:uses"] + stats["real:real_thread_trials"]
+    if stats["hist:histories"] == 0 or stats["sched:cases"] == 0:
+        raise HarnessError("no schedules or no histories were executed")
     ctx.coverage.update({
         "evaluations": max(evaluations, 1), "distinct_nontrivial": len(distinct), "rule": RULE, "samples": samples[:5],
         "stats": dict(stats), "exhaustive": False,
